@@ -471,7 +471,7 @@ impl<K: Hash + Eq, V, RH: BuildHasher, FH: BuildHasher, GH: BuildHasher> Cache<K
         // frequently used list
         if self.ghost.contains(&k) {
             return if recent_len + freq_len >= self.size {
-                let ent = if recent_len > self.recent_size {
+                let ent = if (recent_len > self.recent_size || freq_len == 0) && recent_len > 0 {
                     self.recent.remove_lru_in().unwrap()
                 } else {
                     self.frequent.remove_lru_in().unwrap()
